@@ -644,7 +644,7 @@ package desync
 //@   safety C19
 //@   checks alloc
 //@   requires $consumed >= 0
-//@   modifies all, $consumed, $rp
+//@   modifies d.advance, $consumed, $rp
 //@   ensures $consumed >= old($consumed) && ($consumed == old($consumed) || $consumed < 1<<40)
 //# a decoded table or goodbye list is never longer than the input that was read for it
 //@   ensures r1 == nil && is(r0, FormatTable) ==> 40 * len(as(r0, FormatTable).Items) <= $consumed - old($consumed)
@@ -690,12 +690,15 @@ package desync
 //@   loop 1: invariant @C04 forall k int :: 0 < k && k < $i ==> table.Items[k-1].Offset <= table.Items[k].Offset
 
 //@ func (a *ArchiveDecoder) Next
-//@   prop C19
+//@   prop C19 C18
+//@   safety C19
 //@   checks alloc
 //@   requires $consumed >= 0
+//@   requires @C18 confined(a.dir)
 //@   modifies all, $consumed, $rp
 //@   ensures $consumed >= old($consumed)
-//@   loop 1: invariant $consumed >= old($consumed)
+//@   ensures @C18 confined(a.dir) && (r1 == nil ==> nodeConfined(r0))
+//@   loop 1: invariant $consumed >= old($consumed) && confined(a.dir) && (name == "" || safeName(name))
 
 //# the server allocates for chunk data coming from its own store, not from the request stream
 //@ func (s *ProtocolServer) Serve
@@ -1225,3 +1228,96 @@ package desync
 //@   ensures is($last, ChunkMissing) ==> !r0 && r1 == nil
 //@   ensures $last == nil ==> r0 && r1 == nil
 //@   ensures $last != nil && !is($last, ChunkMissing) ==> !r0 && r1 == $last
+
+// ---------------------------------------------------------------------------- C18: unpacking stays beneath the destination
+
+//@ spec func safeName(n string) bool = n != "" && n != "." && n != ".." && !containsRune(n, 47)
+
+//@ func validFilename
+//@   prop C18
+//@   pure
+//@   ensures r0 <==> safeName(name)
+
+//# every node the archive decoder hands out carries a confined path: the current archive directory joined with
+//# a validated single-component file name; the decoder's own directory stays confined (Join on directories, Dir on goodbye)
+//@ spec func nodeConfined(c interface{}) bool = (is(c, NodeDirectory) ==> confined(as(c, NodeDirectory).Name)) && (is(c, NodeFile) ==> confined(as(c, NodeFile).Name)) && \
+//@     (is(c, NodeSymlink) ==> confined(as(c, NodeSymlink).Name)) && (is(c, NodeDevice) ==> confined(as(c, NodeDevice).Name))
+
+//@ ghost var $phase int
+//# $phase: 0 nothing restored yet, 1 owner restored, 2 mode restored (chown clears set-id bits, so it must come first)
+
+//@ func (fs *LocalFS) SetDirPermissions
+//@   prop C18 C05
+//@   safety none
+//@   pure
+//@   modifies $phase
+//@   ghost@entry $phase = 0
+//@   ghost@after:Chown $phase = 1
+//@   ghost@after:Chmod $phase = 2
+//@   oncall Chown: requires $phase == 0 && $arg0 == pjoin(fs.Root, n.Name) && $arg1 == n.UID && $arg2 == n.GID
+//@   oncall LSet: requires $phase == 1 && $arg0 == pjoin(fs.Root, n.Name)
+//@   oncall Chmod: requires $phase <= 1 && $arg0 == pjoin(fs.Root, n.Name)
+//@   loop 1: invariant $phase == 1
+
+//@ func (fs *LocalFS) SetFilePermissions
+//@   prop C18 C05
+//@   safety none
+//@   pure
+//@   modifies $phase
+//@   ghost@entry $phase = 0
+//@   ghost@after:Chown $phase = 1
+//@   ghost@after:Chmod $phase = 2
+//@   oncall Chown: requires $phase == 0 && $arg0 == pjoin(fs.Root, n.Name) && $arg1 == n.UID && $arg2 == n.GID
+//@   oncall LSet: requires $phase == 1 && $arg0 == pjoin(fs.Root, n.Name)
+//@   oncall Chmod: requires $phase <= 1 && $arg0 == pjoin(fs.Root, n.Name)
+//@   loop 1: invariant $phase == 1
+
+//@ func (fs *LocalFS) SetSymlinkPermissions
+//@   prop C18 C05
+//@   safety none
+//@   pure
+//@   oncall Lchown: requires $arg0 == pjoin(fs.Root, n.Name) && $arg1 == n.UID && $arg2 == n.GID
+//@   oncall LSet: requires $arg0 == pjoin(fs.Root, n.Name)
+
+//# every filesystem effect of the Create* methods is on Join(root, node name); with a confined node name that is
+//# beneath the root (axiom confinedBeneath). Ownership/mode are restored before the modification time.
+//@ func (fs *LocalFS) CreateDir
+//@   prop C18 C05
+//@   safety none
+//@   ghost@entry $done = false
+//@   ghost@after:Lstat $last = $r1
+//@   ghost@after:Lstat $sawDone = isDirOf($r0)
+//@   ghost@after:SetDirPermissions $done = ($r0 == nil)
+//@   oncall Lstat: requires $arg0 == pjoin(fs.Root, n.Name)
+//# lstat, not stat: a symlink (or any other non-directory) in the place of a directory is an error, nothing is created through it
+//@   oncall Mkdir: requires $last != nil && $arg0 == pjoin(fs.Root, n.Name)
+//@   oncall SetDirPermissions: requires $arg0 == n && ($last != nil || $sawDone)
+//@   oncall Chtimes: requires $done && $arg0 == pjoin(fs.Root, n.Name) && $arg2 == n.MTime
+//@   ensures $last == nil && !$sawDone ==> r0 != nil && !$done
+
+//@ func (fs *LocalFS) CreateFile
+//@   prop C18 C05
+//@   safety none
+//@   ghost@entry $done = false
+//@   ghost@after:SetFilePermissions $done = ($r0 == nil)
+//@   oncall RemoveAll: requires $arg0 == pjoin(fs.Root, n.Name)
+//@   oncall OpenFile: requires $arg0 == pjoin(fs.Root, n.Name)
+//@   oncall SetFilePermissions: requires $arg0 == n
+//@   oncall Chtimes: requires $done && $arg0 == pjoin(fs.Root, n.Name) && $arg2 == n.MTime
+
+//@ func (fs *LocalFS) CreateSymlink
+//@   prop C18 C05
+//@   safety none
+//@   oncall Unlink: requires $arg0 == pjoin(fs.Root, n.Name)
+//@   oncall Symlink: requires $arg1 == pjoin(fs.Root, n.Name) && $arg0 == n.Target
+//@   oncall SetSymlinkPermissions: requires $arg0 == n
+
+//@ func (fs *LocalFS) CreateDevice
+//@   prop C18 C05
+//@   safety none
+//@   oncall Unlink: requires $arg0 == pjoin(fs.Root, n.Name)
+//@   oncall Mknod: requires $arg0 == pjoin(fs.Root, n.Name)
+//@   oncall Chown: requires $arg0 == pjoin(fs.Root, n.Name) && $arg1 == n.UID && $arg2 == n.GID
+//@   oncall LSet: requires $arg0 == pjoin(fs.Root, n.Name)
+//@   oncall Chmod: requires $arg0 == pjoin(fs.Root, n.Name)
+//@   oncall Chtimes: requires $arg0 == pjoin(fs.Root, n.Name)
